@@ -21,7 +21,8 @@ RULE = ("cases = construction (currency pair, unit multiple as int/Decimal with 
         "to exact powers of ten, 9.99..9 just below them and the 1e-6 limit), invalid inputs (identical currencies, zero/"
         "negative/non-integral multiples, non-positive/too small/NaN/garbage amounts), and pairs of rates for every "
         "sharing pattern under * and /. Oracle: true rate = term/multiple as Fraction; stored normal form read from "
-        "repr(). Non-trivial = multiple not a power of ten, term magnitude < -1, exact power of ten or limit value, a "
+        "repr(); every valid rate is inverted, the inverse inverted again and the rate inverted a second time, each "
+        "against the reciprocal of the rate actually inverted. Non-trivial = multiple not a power of ten, term magnitude < -1, exact power of ten or limit value, a "
         "rejection, or a triangulation; distinct by digest")
 FLOORS = {"build/nonpow10_multiple": (0.2, "build/cases")}
 
